@@ -1004,7 +1004,8 @@ func (c *checkCtx) writeEvidence(total, ok, trivial int, by map[string]int, solv
 		"SMT solvers: an unsat answer of z3 4.8.12, z3 5.1.0 or cvc5 1.0",
 		"the hand transcription of the 65 named prelude axioms (/verif/prelude/prelude.smt2) into the Lean theorems of prelude/Prelude.lean and prelude/Model.lean that prove them (checked by setup.sh and in the thorough tier), and the one-directional triggers chosen for them",
 		"functions without contract and without verified caller (constructors, String(), Algorithm(), methods of other types) are judged by a conservative syntactic purity analysis of their SSA form (aux.go), not by contracts",
-		"error values are abstracted to nil / non-nil; 64-bit integer arithmetic on lengths and indices is treated as mathematical",
+		"error values are abstracted to nil / non-nil",
+		"64-bit + - * of the code are modelled as mathematical operations and each carries a no-overflow obligation in the safety run of its function (discharged like any other obligation; narrower integer types wrap exactly); the obligations use the type invariant that every byte sequence existing at run time (slice, string, buffer content) has a length representable as int",
 		"ownership: a message is a tree (distinct fields, list elements, the receiver and the buffer do not alias); foreign BinaryCodec implementations meet the interface schema",
 	}
 	trusted = append(base, trusted...)
